@@ -38,6 +38,8 @@ def main(argv=None) -> int:
     pk.add_argument("--seed", type=int, required=True)
     pk.add_argument("--n", type=int, required=True)
     pk.add_argument("--tier", default="quick")
+    pw = sub.add_parser("witness")
+    pw.add_argument("--only", default=None)
     pe = sub.add_parser("explore")
     pe.add_argument("--property", required=True)
     pe.add_argument("--tier", default="quick")
@@ -74,6 +76,10 @@ def main(argv=None) -> int:
         from . import c15
 
         return c15.config_child(args.seed, args.n, args.tier)
+    if args.cmd == "witness":
+        from . import runner
+
+        return runner.make_witnesses(args.only)
     if args.cmd == "explore":
         from . import explore
 
